@@ -278,6 +278,8 @@ def main(argv=None):
                     known_a = k
             if known_a:
                 print("KNOWN-FINDING: property=%s %s" % (prop, known_a["what"]))
+                printed.add(known_a.get("id") or known_a["what"])
+                known_hit.append({"audit": x["name"], "detail": x.get("detail", ""), "what": known_a["what"], "id": known_a.get("id")})
                 continue
             os.makedirs(os.path.join(VERIF, "replays"), exist_ok=True)
             path = os.path.join(VERIF, "replays", "%s-audit-%s.txt" % (prop, re.sub(r"[^A-Za-z0-9_.-]", "_", x["name"])))
